@@ -77,6 +77,17 @@ def base_of(body, op, depth=0):
         if body.is_param(l):
             break
         ds = [d for d in body.defs().get(l, []) if d.kind != 'mutarg' and d.via is None and not (d.lhs and d.lhs['p'])]
+        if len(ds) > 1 and path and str(path[0]) in ('@Ok', '@Some', '@Continue'):
+            # the success payload of a Result / Option assembled on several paths (an inlined helper's return value): the
+            # definitions that build the other variant cannot supply it
+            keep = []
+            for d in ds:
+                if d.kind == 'call' and d.call.is_(r'^std::ops::FromResidual::from_residual$'):
+                    continue
+                if d.kind == 'assign' and d.rv['k'] == 'agg' and 'vi' in d.rv and '@' + d.rv['variant'] != path[0]:
+                    continue
+                keep.append(d)
+            ds = keep
         if len(ds) != 1:
             break
         d = ds[0]
@@ -103,6 +114,12 @@ def base_of(body, op, depth=0):
                 path = field_path(pl) + tuple(path[1:])
                 l = pl['l']
                 continue
+            if rv['k'] == 'agg' and 'vi' in rv and len(path) >= 2 and path[0] == '@' + rv['variant'] and path[1] in rv.get('fields', []) \
+                    and is_place(rv['ops'][rv['fields'].index(path[1])]):
+                pl = op_place(rv['ops'][rv['fields'].index(path[1])])
+                path = field_path(pl) + tuple(path[2:])
+                l = pl['l']
+                continue
             break
         else:
             c = d.call
@@ -113,7 +130,11 @@ def base_of(body, op, depth=0):
                 continue
             if c.is_(r'^std::ops::Try::branch$') and c.args and is_place(c.args[0]):
                 pl = op_place(c.args[0])
-                l, path = pl['l'], ()
+                if tuple(path[:2]) == ('@Continue', '0'):
+                    inner = ('@Ok', '0') if (c.self_ty or '').startswith('std::result::Result<') else ('@Some', '0')
+                    l, path = pl['l'], field_path(pl) + inner + tuple(path[2:])
+                else:
+                    l, path = pl['l'], ()
                 continue
             if c.is_(*DEREFS) and c.args and is_place(c.args[0]):
                 st = strip_ref(c.self_ty or '')
